@@ -52,7 +52,7 @@ func (e *Engine) registerIntrinsics() {
 			return one(c.St, c.Args[1])
 		}
 		e.intr[pp+".ndBytesEqual"] = func(e *Engine, c *CallCtx) []Outcome {
-			return one(c.St, e.bytesEq(c.St, c.Args[0].(VSlice), c.Args[1].(VSlice), 80))
+			return one(c.St, e.bytesEq(c.St, c.Args[0].(VSlice), c.Args[1].(VSlice), e.eqBound()))
 		}
 		e.intr[pp+".ndCopyBytes"] = func(e *Engine, c *CallCtx) []Outcome {
 			src := c.Args[0].(VSlice)
@@ -208,13 +208,24 @@ func intrNdAssume(e *Engine, c *CallCtx) []Outcome {
 }
 
 func intrNdName(e *Engine, c *CallCtx) []Outcome {
-	// ndName(prefix, i) -> prefix + "[" + i + "]" with concrete i
+	// ndName(prefix, i) -> prefix + "[" + i + "]"; a symbolic i splits the path per value
 	p, _ := c.Args[0].(VString).Concrete()
-	i, ok := c.St.Conc(c.Args[1].(*Term))
-	if !ok {
-		unsupported("ndName index must be concrete")
+	t := c.Args[1].(*Term)
+	if i, ok := c.St.Conc(t); ok {
+		return one(c.St, ConstString(fmt.Sprintf("%s[%d]", p, i.Int())))
 	}
-	return one(c.St, ConstString(fmt.Sprintf("%s[%d]", p, i.Int())))
+	vals := e.enumValues(c.St, t, 16, c.Site)
+	var outs []Outcome
+	for k, v := range vals {
+		st := c.St
+		if k < len(vals)-1 {
+			st = c.St.Fork()
+		}
+		st.Assume(Eq(t, v))
+		st.eqs[t.ID] = v
+		outs = append(outs, Outcome{St: st, Ret: ConstString(fmt.Sprintf("%s[%d]", p, v.Int()))})
+	}
+	return outs
 }
 
 func intrNdOpt(e *Engine, c *CallCtx) []Outcome {
@@ -238,6 +249,13 @@ func intrNdTry(e *Engine, c *CallCtx) []Outcome {
 		}
 	}
 	return res
+}
+
+func (e *Engine) eqBound() int {
+	if b, ok := e.params["eqbound"]; ok && b > 0 {
+		return b
+	}
+	return 80
 }
 
 // enumValues lists every feasible value of t on this path (at most limit, else unsupported).
